@@ -16,7 +16,7 @@ Proof.
   destruct k as [|[|[|k]]]; cbn [firstn fold_left do_vstep current archive c_data c_vid c_marker shown reads app filter fst negb].
   - split; [left; reflexivity|left; reflexivity].
   - split; [left; reflexivity|left; reflexivity].
-  - rewrite Hne. cbn [negb]. split; [right; left; reflexivity|left; reflexivity].
+  - split; [left; reflexivity|left; reflexivity].
   - assert (E : firstn k (@nil vstep) = []) by (destruct k; reflexivity). rewrite E. cbn [fold_left shown reads current c_marker c_vid c_data archive app filter fst].
     rewrite Hne. cbn [negb]. split; [left; reflexivity|right; reflexivity].
 Qed.
@@ -41,9 +41,28 @@ Proof.
   - unfold shown. cbn [current c_marker c_vid c_data archive app]. exact Hin.
   - destruct Hcases as [E|[H1 H2]]; [left; symmetry; exact E|]. right. cbn [filter fst]. rewrite Nat.eqb_refl. cbn [negb].
     apply filter_In. split; [exact H1|rewrite H2; reflexivity].
-  - apply (Hfin true).
+  - (* archived and the marker prepared, not published: as after the first step *)
+    destruct Hcases as [E|[H1 H2]]; [left; symmetry; exact E|]. right. cbn [filter fst]. rewrite Nat.eqb_refl. cbn [negb].
+    apply filter_In. split; [exact H1|rewrite H2; reflexivity].
   - assert (E : firstn k (@nil vstep) = []) by (destruct k; reflexivity). rewrite E. cbn [fold_left shown current c_marker c_vid c_data archive app].
     apply (Hfin false).
+Qed.
+
+(* the two earlier forms of the code. Id first, flag second (in place): still never loses the version in a bucket with versioning
+   enabled - but with versioning suspended the id attribute was removed after the flag was set, which is the flag-first order *)
+Theorem inplace_order_keeps_version : forall s fresh k,
+  c_marker (current s) = false -> fresh <> c_vid (current s) ->
+  In (c_vid (current s), c_data (current s)) (shown (run_killed (delete_steps_inplace fresh) s k)).
+Proof.
+  intros s fresh k Hm Hf. destruct s as [[d v m] a]. cbn in Hm, Hf. subst m.
+  assert (Hne : Nat.eqb v fresh = false) by (apply Nat.eqb_neq; intros E; apply Hf; symmetry; exact E).
+  unfold run_killed, delete_steps_inplace.
+  destruct k as [|[|[|k]]]; cbn [firstn fold_left do_vstep current archive c_data c_vid c_marker shown reads app filter fst negb].
+  - left; reflexivity.
+  - left; reflexivity.
+  - rewrite Hne. cbn [negb]. right; left; reflexivity.
+  - assert (E : firstn k (@nil vstep) = []) by (destruct k; reflexivity). rewrite E. cbn [fold_left shown reads current c_marker c_vid c_data archive app filter fst].
+    rewrite Hne. cbn [negb]. left; reflexivity.
 Qed.
 
 (* the order before the repair: killed after two steps, the version is gone from what the API shows *)
@@ -51,3 +70,22 @@ Theorem old_order_loses_version :
   let s := {| current := {| c_data := 7; c_vid := 1; c_marker := false |}; archive := [] |} in
   ~ In (1, 7) (shown (run_killed (delete_steps_old 2) s 2)) /\ reads (run_killed (delete_steps_old 2) s 2) = None.
 Proof. cbn. split; [intros []|reflexivity]. Qed.
+
+(* with the marker renamed into place there is no state in between: wherever the delete is killed the key shows exactly what it
+   showed before, or exactly the new state (the version it had, now archived, and every other version whose id is not the marker's) *)
+Theorem delete_atomic : forall s fresh k,
+  c_marker (current s) = false -> fresh <> c_vid (current s) ->
+  let s' := run_killed (delete_steps fresh) s k in
+  (shown s' = shown s /\ reads s' = reads s) \/
+  (shown s' = (c_vid (current s), c_data (current s)) :: filter (fun e => negb (Nat.eqb (fst e) fresh)) (archive s) /\ reads s' = None).
+Proof.
+  intros s fresh k Hm Hf. destruct s as [[d v m] a]. cbn in Hm, Hf. subst m.
+  assert (Hne : Nat.eqb v fresh = false) by (apply Nat.eqb_neq; intros E; apply Hf; symmetry; exact E).
+  unfold run_killed, delete_steps.
+  destruct k as [|[|[|k]]]; cbn [firstn fold_left do_vstep current archive c_data c_vid c_marker shown reads app filter fst negb].
+  - left. split; reflexivity.
+  - left. rewrite Nat.eqb_refl. cbn [negb]. split; reflexivity.
+  - left. rewrite Nat.eqb_refl. cbn [negb]. split; reflexivity.
+  - assert (E : firstn k (@nil vstep) = []) by (destruct k; reflexivity). rewrite E. cbn [fold_left shown reads current c_marker c_vid c_data archive app filter fst].
+    rewrite Hne. cbn [negb]. right. split; reflexivity.
+Qed.
